@@ -53,6 +53,9 @@ pub struct VerifWalk<K, V> {
     pub bucket_addrs: Vec<usize>,
     /// Number of buckets of the table.
     pub buckets: usize,
+    /// Address of the end of the table's data part (changes whenever the
+    /// table is re-allocated).
+    pub table_data_end: usize,
     /// `len()` of the table.
     pub table_len: usize,
     /// `capacity()` of the table.
@@ -150,6 +153,7 @@ impl<K, V, S> LruCache<K, V, S> {
             backward_end,
             bucket_addrs,
             buckets: self.table.buckets(),
+            table_data_end: self.table.data_end().as_ptr() as usize,
             table_len: self.table.len(),
             table_capacity: self.table.capacity()
         }
